@@ -194,7 +194,80 @@ func solveOne(o *Obligation, idx int, cfg SolverCfg) *Result {
 			}
 		}
 	}
+	// helpers: the query with the optional axioms (closed entry heap), and the goal exit
+	// by exit (the merged exit state - arrays under if-then-else - defeats the solvers
+	// now and then; the exits' path conditions cover the obligation's path condition)
+	tryOpt := func(ats []attempt) bool {
+		if o.Negate || !o.HasOpt() {
+			return false
+		}
+		of := filepath.Join(cfg.WorkDir, fmt.Sprintf("o%05d.opt.smt2", idx))
+		if err := os.WriteFile(of, []byte(o.SMTOpt()), 0o644); err != nil {
+			return false
+		}
+		defer func() {
+			if !cfg.KeepFiles {
+				os.Remove(of)
+			}
+		}()
+		for _, at := range ats {
+			ans, _, secs := runSolver(solvers[at.si], at.timeout, of)
+			r.Seconds += secs
+			if ans == "unsat" {
+				r.Status = Proved
+				r.Solver = solvers[at.si].name + " +closed-heap"
+				return true
+			}
+			if ans == "sat" {
+				return false
+			}
+		}
+		return false
+	}
+	tryCases := func(ats []attempt) bool {
+		if o.Negate || len(o.Cases) < 2 {
+			return false
+		}
+		for i := range o.Cases {
+			cf := filepath.Join(cfg.WorkDir, fmt.Sprintf("o%05d.case%d.smt2", idx, i))
+			if err := os.WriteFile(cf, []byte(o.SMTCase(i)), 0o644); err != nil {
+				return false
+			}
+			ok := false
+			for _, at := range ats {
+				ans, _, secs := runSolver(solvers[at.si], at.timeout, cf)
+				r.Seconds += secs
+				if ans == "unsat" {
+					ok = true
+					break
+				}
+				if ans == "sat" {
+					break
+				}
+			}
+			if !cfg.KeepFiles {
+				os.Remove(cf)
+			}
+			if !ok {
+				return false
+			}
+		}
+		r.Status = Proved
+		r.Solver = "z3-new/cvc5 by exit cases"
+		return true
+	}
+	earlyDone := false
 	for _, at := range plan {
+		if !earlyDone && at.timeout != short && !o.Negate {
+			// between the short and the long round: the two helpers with short timeouts
+			earlyDone = true
+			if tryOpt([]attempt{{0, short}, {2, short}, {4, short}}) {
+				return r
+			}
+			if tryCases([]attempt{{0, short}, {2, short}, {4, short}}) {
+				return r
+			}
+		}
 		si, sd := at.si, solvers[at.si]
 		ans, out, secs := runSolver(sd, at.timeout, file)
 		r.Seconds += secs
@@ -256,68 +329,12 @@ func solveOne(o *Obligation, idx int, cfg SolverCfg) *Result {
 		r.Output = strings.Join(errs, " | ")
 		return r
 	}
-	// second round: with the optional axioms (closed entry heap)
-	if o.HasOpt() {
-		of := filepath.Join(cfg.WorkDir, fmt.Sprintf("o%05d.opt.smt2", idx))
-		if err := os.WriteFile(of, []byte(o.SMTOpt()), 0o644); err == nil {
-			for _, at := range []attempt{{0, short}, {2, short}, {4, short}, {0, cfg.TimeoutSec}, {2, cfg.TimeoutSec}} {
-				if at.timeout == short && cfg.TimeoutSec <= short && at.si != 0 {
-					continue
-				}
-				ans, _, secs := runSolver(solvers[at.si], at.timeout, of)
-				r.Seconds += secs
-				if ans == "unsat" {
-					r.Status = Proved
-					r.Solver = solvers[at.si].name + " +closed-heap"
-					if !cfg.KeepFiles {
-						os.Remove(of)
-					}
-					return r
-				}
-				if ans == "sat" {
-					break
-				}
-			}
-			if !cfg.KeepFiles {
-				os.Remove(of)
-			}
-		}
+	// last resort: the optional axioms and the exit-case split with the full timeout
+	if tryOpt([]attempt{{0, cfg.TimeoutSec}, {2, cfg.TimeoutSec}, {4, cfg.TimeoutSec}}) {
+		return r
 	}
-	// the merged exit state (arrays under if-then-else) defeats the solvers now and
-	// then: try the goal exit by exit (the exits' path conditions cover PC)
-	if len(o.Cases) > 1 {
-		all := true
-		for i := range o.Cases {
-			cf := filepath.Join(cfg.WorkDir, fmt.Sprintf("o%05d.case%d.smt2", idx, i))
-			if err := os.WriteFile(cf, []byte(o.SMTCase(i)), 0o644); err != nil {
-				all = false
-				break
-			}
-			ok := false
-			for _, at := range []attempt{{0, short}, {2, short}, {4, short}, {0, cfg.TimeoutSec}, {2, cfg.TimeoutSec}} {
-				ans, _, secs := runSolver(solvers[at.si], at.timeout, cf)
-				r.Seconds += secs
-				if ans == "unsat" {
-					ok = true
-					break
-				}
-				if ans == "sat" {
-					break
-				}
-			}
-			if !cfg.KeepFiles {
-				os.Remove(cf)
-			}
-			if !ok {
-				all = false
-				break
-			}
-		}
-		if all {
-			r.Status = Proved
-			r.Solver = "z3-new/cvc5 by exit cases"
-			return r
-		}
+	if tryCases([]attempt{{0, cfg.TimeoutSec}, {2, cfg.TimeoutSec}, {4, cfg.TimeoutSec}}) {
+		return r
 	}
 	r.Status = Undecided
 	r.Output = lastOut
